@@ -278,6 +278,95 @@ def inside_comment_cases(tier, seed):
     return out
 
 
+KITCHEN_SINK = """//! inner doc of the file
+use std::{fmt, io::{self, Read}};
+use a::b as c;
+
+/// outer doc
+#[derive(Debug, Clone)]
+pub struct Empty {}
+pub struct Unit;
+pub struct Pair(pub u8, u8);
+pub struct Rec { pub first: u32, second: Option<Box<Rec>> }
+pub enum Never {}
+pub enum Choice { A, B(u8), C { x: u8 } }
+pub trait Shape { fn nothing(&self) {} fn area(&self) -> f64; fn one(&self) -> u8 { 1 } }
+impl Shape for Unit { fn nothing(&self) {} fn area(&self) -> f64 { 0. } }
+impl Drop for Pair { fn drop(&mut self) {} }
+impl Empty {}
+fn nothing() {}
+fn single() -> u8 { 1 }
+fn one_call() { call() }
+fn generic<T: Clone + fmt::Debug, U>(t: T, u: &mut U) -> T where U: Read { t.clone() }
+extern "C" { fn ffi(x: i32) -> i32; }
+mod inline { pub fn f() {} }
+mod empty_mod {}
+macro_rules! mac { () => {}; ($x:expr) => { $x + 1 }; }
+const TABLE: [u8; 3] = [1, 2, 3];
+static NAME: &str = "a string with some more text to make it a little bit longer than usual, so that it can be broken";
+type Alias<T> = Result<T, ()>;
+fn body(v: Option<u8>, r: Rec) -> Result<u8, ()> {
+    // a line comment that is reasonably long so that wrapping it has something to do when enabled
+    /* a block comment */
+    let closure = |x: u8| x + 1;
+    let empty_closure = || {};
+    let s = Rec { first: 1, second: None };
+    let Rec { first, .. } = r;
+    let t = try!(single_result());
+    let arr = [1, 2, 3,];
+    let range = 0..10;
+    let hex = 0xAbCd;
+    let float = 1.;
+    match v { Some(x) if x > 1 => { closure(x); } Some(_) | None => {} }
+    if first > 1 { return Ok(1); } else if first == 0 {} else { loop { break; } }
+    while let Some(_) = v { continue; }
+    for i in 0..3 { println!("{}", i); }
+    let chain = s.second.as_ref().map(|b| b.first).unwrap_or_default().checked_add(1).unwrap();
+    unsafe { ffi(1); }
+    Ok(t?)
+}
+"""
+
+
+def option_settings():
+    """(option, non-default value) for every option of Configurations.md whose values are listed there (booleans and enumerations)"""
+    import re
+    txt = open(os.path.join(common.REPO, "Configurations.md")).read()
+    out = []
+    for sec in re.split(r"(?m)^## `", txt)[1:]:
+        name = sec.split("`", 1)[0]
+        d = re.search(r"\*\*Default value\*\*: `([^`]*)`", sec)
+        pv = re.search(r"\*\*Possible values\*\*:(.*)", sec)
+        if not d or not pv or name in ("ignore", "file_lines", "required_version", "edition", "style_edition", "version", "license_template_path", "emit_mode", "make_backup", "print_misformatted_file_names", "disable_all_formatting", "skip_children", "show_parse_errors", "hide_parse_errors", "color", "unstable_features", "verbose"):
+            continue
+        vals = [v.strip('"') for v in re.findall(r"`([^`]*)`", pv.group(1))]
+        if not vals or any(" " in v for v in vals):
+            continue
+        dflt = d.group(1).strip('"')
+        for v in vals:
+            if v != dflt and v != "max_width" and re.match(r"^[A-Za-z0-9_]+$", v):
+                out.append((name, v, dflt in ("true", "false")))
+    return out
+
+
+def option_pair_cases(tier, seed):
+    """the kitchen-sink file under every PAIR of boolean options flipped away from their defaults (quick and thorough), and under every
+    pair of listed non-default settings of any two options (thorough; quick: the slice selected by the seed)"""
+    st = option_settings()
+    out = []
+    for i in range(len(st)):
+        for j in range(i + 1, len(st)):
+            (n1, v1, b1), (n2, v2, b2) = st[i], st[j]
+            if n1 == n2:
+                continue
+            if not (b1 and b2) and tier != "thorough" and (i * 131 + j + seed) % 16:
+                continue
+            for ed in (("2015",) if tier != "thorough" else ("2015", "2024")):
+                out.append(({"text": KITCHEN_SINK, "config": [["edition", "2015"], ["style_edition", ed], [n1, v1], [n2, v2]], "again": False, "lex": False},
+                            ("optpair/%s=%s,%s=%s/se%s" % (n1, v1, n2, v2, ed), "100")))
+    return out
+
+
 def extra_cases(tier, seed):
     """(a) syntax the parser accepts but the formatter rarely sees (unstable features, odd literals, degenerate files) at
     several widths; (b) partial file_lines selections over texts whose unselected lines end in blanks (comments, string
@@ -288,6 +377,7 @@ def extra_cases(tier, seed):
             for extra in ([], [["wrap_comments", "true"], ["normalize_comments", "true"], ["format_strings", "true"]]):
                 out.append(({"text": e + "\n", "config": [["max_width", w], ["edition", "2024"], ["error_on_line_overflow", "true"], ["error_on_unformatted", "true"]] + extra, "again": False, "lex": False}, ("exotic/%d" % i, w)))
     out += comment_cases(tier, seed)
+    out += option_pair_cases(tier, seed)
     out += inside_comment_cases(tier, seed)
     rnd = random.Random("c16-window-%d" % seed)
     for k in range(400 if tier != "thorough" else 6000):
